@@ -7,6 +7,8 @@ import Kap.Proofs.C10Flat
 import Kap.Proofs.C10Sort
 import Kap.Proofs.C10FlatStream
 import Kap.Proofs.C10Eval
+import Kap.Proofs.C10Combine
+import Kap.Proofs.C10GroupBy
 set_option linter.unusedSimpArgs false
 namespace Kap.C10.Main
 open Kap.C10
